@@ -46,16 +46,17 @@ def all64():
 
 
 TIERS = {
+    # cmp: (family of C, family of S, family of D) per group of pairs -- mirror of Fam() in BinopSlotCmp.tla
     "quick": {
         "ops": [o[0] for o in lb.OPS[:8]], "depth3_ops": [],
-        "tlc_ref": "BinopSlot_refq", "tlc_bin": "BinopSlot_quick",
-        "cmp": [("BinopSlotCmp_c", all64(), [], TINY), ("BinopSlotCmp_s", FIVE, FIVE, [])],
+        "tlc_bin": "BinopSlot_quick", "tlc_cmp": "BinopSlotCmp_quick", "strict": False,
+        "cmp": [(all64(), [], []), (FIVE, FIVE, [])],
         "cmp_modules": 6,
     },
     "thorough": {
         "ops": [o[0] for o in lb.OPS], "depth3_ops": ["add"],
-        "tlc_ref": "BinopSlot_ref", "tlc_bin": "BinopSlot_deep",
-        "cmp": [("BinopSlotCmp_ct", all64(), [], SMALL), ("BinopSlotCmp_st", MEDIUM, MEDIUM, TINY)],
+        "tlc_bin": "BinopSlot_deep", "tlc_cmp": "BinopSlotCmp_thorough", "strict": True,
+        "cmp": [(all64(), [], SMALL), (MEDIUM, MEDIUM, TINY)],
         "cmp_modules": 12,
     },
 }
@@ -69,7 +70,7 @@ def valid_to(chain_defs):
 def cmp_class_universe(cfgs):
     """All class names the comparison configs can need: {C name: set of class names living with it}, D names."""
     groups, dnames = {}, set()
-    for _, famc, fams, famd in cfgs:
+    for famc, fams, famd in cfgs:
         for dc in famc:
             for tc in (0, 1):
                 if tc and not valid_to([dc]):
@@ -153,7 +154,7 @@ def run(tier, seed):
     pydir = os.path.join(wd, "py")
     os.makedirs(pydir, exist_ok=True)
     cov = {"tlc": []}
-    pool = concurrent.futures.ThreadPoolExecutor(max_workers=4)
+    pool = concurrent.futures.ThreadPoolExecutor(max_workers=8)
 
     # ---- builds start right away (the class families do not depend on TLC's output)
     bin_mods = []          # (modname, op, cs, depth3)
@@ -182,7 +183,7 @@ def run(tier, seed):
 
     # ---- model checking (concurrently)
     def tl(module, cfg, must_fail=None):
-        r = core.tlc(module, cfg=cfg, workers=4, timeout=3000)
+        r = core.tlc(module, cfg=cfg, workers=8, timeout=3000)
         if must_fail:
             if r.violation != must_fail:
                 sys.stderr.write(r.out[-3000:])
@@ -191,19 +192,21 @@ def run(tier, seed):
             sys.stderr.write(r.out[-3000:])
             core.die("TLC failed (%s): %s" % (r.violation or r.rc, r.cmd))
         return r
-    futs = [("arith: CPython's algorithm on plain classes = reference (ImplAgrees, AllPython)", pool.submit(tl, "BinopSlot", T["tlc_ref"])),
-            ("arith: cases published; Imp = Ref outside HSame/HChained", pool.submit(tl, "BinopSlot", T["tlc_bin"])),
-            ("arith: Imp = Ref refuted on cdef classes", pool.submit(tl, "BinopSlot", "BinopSlot_strict", "ImplAgrees")),
-            ("cmp: Imp = Ref refuted (total_ordering)", pool.submit(tl, "BinopSlotCmp", "BinopSlotCmp_strict", "ImplAgrees"))]
-    for cfg, _, _, _ in T["cmp"]:
-        futs.append(("cmp: cases published; Imp = Ref outside the total_ordering hazards (%s)" % cfg, pool.submit(tl, "BinopSlotCmp", cfg)))
+    futs = [("arith: cases published; CPython's algorithm on plain classes = reference; Imp = Ref outside HSame/HChained",
+             pool.submit(tl, "BinopSlot", T["tlc_bin"])),
+            ("cmp: cases published; Imp = Ref outside the total_ordering hazards", pool.submit(tl, "BinopSlotCmp", T["tlc_cmp"]))]
+    if T["strict"]:
+        futs += [("arith: Imp = Ref refuted on cdef classes", pool.submit(tl, "BinopSlot", "BinopSlot_strict", "ImplAgrees")),
+                 ("cmp: Imp = Ref refuted (total_ordering)", pool.submit(tl, "BinopSlotCmp", "BinopSlotCmp_strict", "ImplAgrees"))]
     tl_res = []
     for what, f in futs:
         r = f.result()
         tl_res.append((what, r))
         cov["tlc"].append(dict(r.summary(), config=what, violation=r.violation))
-    bin_cases = tl_res[1][1].printed
-    cmp_cases = [c for what, r in tl_res[4:] for c in r.printed]
+    bin_cases = tl_res[0][1].printed
+    cmp_cases = tl_res[1][1].printed
+    if not bin_cases or not cmp_cases:
+        core.die("no cases published")
     for c in bin_cases:
         c["beh"] = c["beh"] if isinstance(c["beh"], dict) else {}
     for c in cmp_cases:
